@@ -28,7 +28,7 @@ theorem guards_no_null_helpers :
     Generated.ioNoNullHelpers = ["check_if_None", "assert_no_nulls_in_list", "assert_no_nulls"] := by decide +kernel
 
 /-- `check_if_None(key, val)` read on a Model value -/
-def nnCheck (_k : String) (v : Value) : Bool := Generated.io_check_if_None (val := v)
+def nnCheck (_k : String) (v : Value) : Bool := Generated.io_check_if_None (p2 := v)
 
 /-- `check_if_None` rejects `None` and nothing else -/
 theorem guards_tie_check_if_none (k : String) (v : Value) : nnCheck k v = !v.isNull := by
@@ -43,7 +43,7 @@ theorem guards_tie_no_null_val (k : String) (v : Value) :
 /-- `assert_no_nulls(d)` -/
 theorem guards_tie_no_null_obj (kvs : Obj) :
     noNullObj kvs = Generated.io_assert_no_nulls (assert_no_nulls := nnObj) (assert_no_nulls_in_list := nnList)
-      (check_if_None := nnCheck) (d := .obj kvs) := by
+      (check_if_None := nnCheck) (p5 := .obj kvs) := by
   unfold Generated.io_assert_no_nulls
   rw [noNullObj_eq_all]
   simp only [Value.items]
@@ -54,7 +54,7 @@ theorem guards_tie_no_null_obj (kvs : Obj) :
 /-- `assert_no_nulls_in_list(k, v)` -/
 theorem guards_tie_no_null_list (k : String) (xs : List Value) :
     noNullList xs = Generated.io_assert_no_nulls_in_list (assert_no_nulls := nnObj) (assert_no_nulls_in_list := nnList)
-      (check_if_None := nnCheck) (k := k) (v := .list xs) := by
+      (check_if_None := nnCheck) (p3 := k) (p4 := .list xs) := by
   unfold Generated.io_assert_no_nulls_in_list
   rw [noNullList_eq_all]
   simp only [Value.elems]
@@ -64,7 +64,7 @@ theorem guards_tie_no_null_list (k : String) (xs : List Value) :
 
 /-- `_no_null_values(data)`: everything but the top-level `metadata` -/
 theorem guards_tie_no_null_values (data : Obj) :
-    (noNullValues data).isOk = Generated.io_no_null_values (assert_no_nulls := nnObj) (data := .obj data) := by
+    (noNullValues data).isOk = Generated.io_no_null_values (assert_no_nulls := nnObj) (p0 := .obj data) := by
   unfold noNullValues Generated.io_no_null_values
   have h : (fun (kv : String × Value) => decide (kv.1 ≠ "metadata"))
       = (fun (x : String × Value) => match x with | (k, _v) => k != "metadata") := by
@@ -79,82 +79,82 @@ theorem guards_sites_io : Generated.guardSitesIO =
     [("_stringify_infinities", 2, 0), ("_unstringify_infinities", 4, 0)] := by decide +kernel
 
 theorem guards_context_io : Generated.guardContextIO =
-    [("guard_stringify_deme", ["for deme in data['demes']"]),
-     ("guard_stringify_migration", ["for migration in data.get('migrations', [])"]),
-     ("guard_unstringify_deme", ["for deme in data['demes']"]),
-     ("guard_unstringify_migration", ["for migration in data.get('migrations', [])"]),
-     ("guard_unstringify_default_key", ["for default in data.get('defaults', [])"]),
-     ("guard_unstringify_default", ["for default in data.get('defaults', [])", "if default in ['migration', 'deme']"])] := by
+    [("guard_stringify_deme", ["for v0 in p0['demes']"]),
+     ("guard_stringify_migration", ["for v1 in p0.get('migrations', [])"]),
+     ("guard_unstringify_deme", ["for v0 in p0['demes']"]),
+     ("guard_unstringify_migration", ["for v2 in p0.get('migrations', [])"]),
+     ("guard_unstringify_default_key", ["for v3 in p0.get('defaults', [])"]),
+     ("guard_unstringify_default", ["for v3 in p0.get('defaults', [])", "if v3 in ['migration', 'deme']"])] := by
   decide +kernel
 
 theorem guards_stringify_loops : Generated.ioStringifyLoops =
-    ["for deme in data['demes']", "for migration in data.get('migrations', [])"] := by decide +kernel
+    ["for v0 in p0['demes']", "for v1 in p0.get('migrations', [])"] := by decide +kernel
 
 /-- only `start_time` is written, with `_INFINITY_STR` (tied to `infinityStr` by `tables_infinity_str`) -/
 theorem guards_stringify_assignments : Generated.ioStringifyAssignments =
-    [("deme['start_time']", "_INFINITY_STR", ["for deme in data['demes']",
-        "if 'start_time' in deme and math.isinf(deme['start_time'])"]),
-     ("migration['start_time']", "_INFINITY_STR", ["for migration in data.get('migrations', [])",
-        "if 'start_time' in migration and math.isinf(migration['start_time'])"])] := by decide +kernel
+    [("v0['start_time']", "_INFINITY_STR", ["for v0 in p0['demes']",
+        "if 'start_time' in v0 and math.isinf(v0['start_time'])"]),
+     ("v1['start_time']", "_INFINITY_STR", ["for v1 in p0.get('migrations', [])",
+        "if 'start_time' in v1 and math.isinf(v1['start_time'])"])] := by decide +kernel
 
 /-- `"start_time" in deme and math.isinf(deme["start_time"])` -/
 theorem guard_stringify_deme_meaning (n : Num) :
-    Generated.guard_stringify_deme (has_deme_start_time := true) (deme_start_time := n) = n.isInf := by
+    Generated.guard_stringify_deme (has_v0_start_time := true) (v0_start_time := n) = n.isInf := by
   unfold Generated.guard_stringify_deme
   cases n <;> guard_close
 
 theorem guard_stringify_migration_meaning (n : Num) :
-    Generated.guard_stringify_migration (has_migration_start_time := true) (migration_start_time := n) = n.isInf := by
+    Generated.guard_stringify_migration (has_v1_start_time := true) (v1_start_time := n) = n.isInf := by
   unfold Generated.guard_stringify_migration
   cases n <;> guard_close
 
 theorem guards_tie_stringify_infinities : stringifyInfinities = stringifyInfinitiesWith
-    (fun h n => Generated.guard_stringify_deme (has_deme_start_time := h) (deme_start_time := n))
-    (fun h n => Generated.guard_stringify_migration (has_migration_start_time := h) (migration_start_time := n)) := by
+    (fun h n => Generated.guard_stringify_deme (has_v0_start_time := h) (v0_start_time := n))
+    (fun h n => Generated.guard_stringify_migration (has_v1_start_time := h) (v1_start_time := n)) := by
   exact (stringifyInfinitiesWith_eq _ _ guard_stringify_deme_meaning guard_stringify_migration_meaning).symm
 
 /-! ### `_unstringify_infinities` -/
 
 theorem guards_unstringify_loops : Generated.ioUnstringifyLoops =
-    ["for deme in data['demes']", "for migration in data.get('migrations', [])",
-     "for default in data.get('defaults', [])"] := by decide +kernel
+    ["for v0 in p0['demes']", "for v2 in p0.get('migrations', [])",
+     "for v3 in p0.get('defaults', [])"] := by decide +kernel
 
 /-- only `start_time` is written, with `float(start_time)` = `float("Infinity")` under the test -/
 theorem guards_unstringify_assignments : Generated.ioUnstringifyAssignments =
-    [("deme['start_time']", "float(start_time)", ["for deme in data['demes']", "if start_time == _INFINITY_STR"]),
-     ("migration['start_time']", "float(start_time)", ["for migration in data.get('migrations', [])",
-        "if start_time == _INFINITY_STR"]),
-     ("data['defaults'][default]['start_time']", "float(start_time)", ["for default in data.get('defaults', [])",
-        "if default in ['migration', 'deme']", "if start_time == _INFINITY_STR"])] := by decide +kernel
+    [("v0['start_time']", "float(v1)", ["for v0 in p0['demes']", "if v1 == _INFINITY_STR"]),
+     ("v2['start_time']", "float(v1)", ["for v2 in p0.get('migrations', [])",
+        "if v1 == _INFINITY_STR"]),
+     ("p0['defaults'][v3]['start_time']", "float(v1)", ["for v3 in p0.get('defaults', [])",
+        "if v3 in ['migration', 'deme']", "if v1 == _INFINITY_STR"])] := by decide +kernel
 
 /-- `deme.get("start_time") == _INFINITY_STR` -/
 theorem guard_unstringify_deme_meaning (s : String) :
-    Generated.guard_unstringify_deme (deme_get_start_time := s) = decide (s = infinityStr) := by
+    Generated.guard_unstringify_deme (v0_get_start_time := s) = decide (s = infinityStr) := by
   unfold Generated.guard_unstringify_deme infinityStr
   first | rfl | simp | grind
 
 theorem guard_unstringify_migration_meaning (s : String) :
-    Generated.guard_unstringify_migration (migration_get_start_time := s) = decide (s = infinityStr) := by
+    Generated.guard_unstringify_migration (v2_get_start_time := s) = decide (s = infinityStr) := by
   unfold Generated.guard_unstringify_migration infinityStr
   first | rfl | simp | grind
 
 /-- `default in ["migration", "deme"]` -/
 theorem guard_unstringify_default_key_meaning (s : String) :
-    Generated.guard_unstringify_default_key (default := s) = (decide (s = "migration") || decide (s = "deme")) := by
+    Generated.guard_unstringify_default_key (v3 := s) = (decide (s = "migration") || decide (s = "deme")) := by
   unfold Generated.guard_unstringify_default_key
   by_cases h1 : s = "migration" <;> by_cases h2 : s = "deme" <;> simp [h1, h2]
 
 /-- `data["defaults"][default].get("start_time") == _INFINITY_STR` -/
 theorem guard_unstringify_default_meaning (s : String) :
-    Generated.guard_unstringify_default (data_defaults_default_get_start_time := s) = decide (s = infinityStr) := by
+    Generated.guard_unstringify_default (p0_defaults_v3_get_start_time := s) = decide (s = infinityStr) := by
   unfold Generated.guard_unstringify_default infinityStr
   first | rfl | simp | grind
 
 theorem guards_tie_unstringify_infinities : unstringifyInfinities = unstringifyInfinitiesWith
-    (fun s => Generated.guard_unstringify_deme (deme_get_start_time := s))
-    (fun s => Generated.guard_unstringify_migration (migration_get_start_time := s))
-    (fun s => Generated.guard_unstringify_default_key (default := s))
-    (fun s => Generated.guard_unstringify_default (data_defaults_default_get_start_time := s)) := by
+    (fun s => Generated.guard_unstringify_deme (v0_get_start_time := s))
+    (fun s => Generated.guard_unstringify_migration (v2_get_start_time := s))
+    (fun s => Generated.guard_unstringify_default_key (v3 := s))
+    (fun s => Generated.guard_unstringify_default (p0_defaults_v3_get_start_time := s)) := by
   exact (unstringifyInfinitiesWith_eq _ _ _ _ guard_unstringify_deme_meaning guard_unstringify_migration_meaning
     guard_unstringify_default_key_meaning guard_unstringify_default_meaning).symm
 
@@ -166,14 +166,14 @@ theorem guards_tie_unstringify_infinities : unstringifyInfinities = unstringifyI
 
 theorem guards_io_pipeline : Generated.ioPipeline =
     [
-     ("loads_asdict", [("load_asdict(stream, format=format)", ["With"])]),
-     ("load_asdict", [("json.load(f)", ["if format == 'json'", "With"]), ("_load_yaml_asdict(f)", ["else of if format == 'json'", "if format == 'yaml'", "With"]), ("_no_null_values(data)", []), ("_unstringify_infinities(data)", [])]),
-     ("loads", [("loads_asdict(string, format=format)", []), ("demes.Graph.fromdict(data)", [])]),
-     ("load", [("load_asdict(filename, format=format)", []), ("demes.Graph.fromdict(data)", [])]),
-     ("load_all", [("yaml.load_all(f)", ["With", "With"]), ("_no_null_values(data)", ["With", "With", "for data in yaml.load_all(f)"]), ("_unstringify_infinities(data)", ["With", "With", "for data in yaml.load_all(f)"]), ("demes.Graph.fromdict(data)", ["With", "With", "for data in yaml.load_all(f)"])]),
-     ("dumps", [("dump(graph, stream, format=format, simplified=simplified)", ["With"])]),
-     ("dump", [("graph.asdict_simplified()", ["if simplified"]), ("graph.asdict()", ["else of if simplified"]), ("_stringify_infinities(data)", ["if format == 'json'", "With"]), ("json.dump(data, f, allow_nan=False, indent=2)", ["if format == 'json'", "With"]), ("_dump_yaml_fromdict(data, f)", ["else of if format == 'json'", "if format == 'yaml'", "With"])]),
-     ("dump_all", [("graph.asdict_simplified()", ["With", "for graph in graphs", "if simplified"]), ("graph.asdict()", ["With", "for graph in graphs", "else of if simplified"]), ("_dump_yaml_fromdict(data, f, multidoc=True)", ["With", "for graph in graphs"])])] := by decide +kernel
+   ("loads_asdict", [("load_asdict(v0, format=format)", ["With"])]),
+     ("load_asdict", [("json.load(v0)", ["if format == 'json'", "With"]), ("_load_yaml_asdict(v0)", ["else of if format == 'json'", "if format == 'yaml'", "With"]), ("_no_null_values(v1)", []), ("_unstringify_infinities(v1)", [])]),
+     ("loads", [("loads_asdict(string, format=format)", []), ("demes.Graph.fromdict(v0)", [])]),
+     ("load", [("load_asdict(filename, format=format)", []), ("demes.Graph.fromdict(v0)", [])]),
+     ("load_all", [("v1.load_all(v0)", ["With", "With"]), ("_no_null_values(v2)", ["With", "With", "for v2 in v1.load_all(v0)"]), ("_unstringify_infinities(v2)", ["With", "With", "for v2 in v1.load_all(v0)"]), ("demes.Graph.fromdict(v2)", ["With", "With", "for v2 in v1.load_all(v0)"])]),
+     ("dumps", [("dump(graph, v0, format=format, simplified=simplified)", ["With"])]),
+     ("dump", [("graph.asdict_simplified()", ["if simplified"]), ("graph.asdict()", ["else of if simplified"]), ("_stringify_infinities(v0)", ["if format == 'json'", "With"]), ("json.dump(v0, v1, allow_nan=False, indent=2)", ["if format == 'json'", "With"]), ("_dump_yaml_fromdict(v0, v1)", ["else of if format == 'json'", "if format == 'yaml'", "With"])]),
+     ("dump_all", [("v1.asdict_simplified()", ["With", "for v1 in graphs", "if simplified"]), ("v1.asdict()", ["With", "for v1 in graphs", "else of if simplified"]), ("_dump_yaml_fromdict(v2, v0, multidoc=True)", ["With", "for v1 in graphs"])])] := by decide +kernel
 
 /-! ### the generated functions and the `…With` forms really depend on their arguments -/
 
@@ -184,11 +184,11 @@ def exDoc : Obj :=
    ("demes", .list [.obj [("name", .str "a"), ("start_time", .num .pinf),
       ("epochs", .list [.obj [("start_size", .num (.fin 1)), ("end_time", .num (.fin 0))]])]])]
 
-example : Generated.io_no_null_values (assert_no_nulls := nnObj) (data := .obj exDoc) = true := by decide +kernel
-example : Generated.io_no_null_values (assert_no_nulls := nnObj) (data := .obj (exDoc ++ [("doi", .list [.null])])) = false := by
+example : Generated.io_no_null_values (assert_no_nulls := nnObj) (p0 := .obj exDoc) = true := by decide +kernel
+example : Generated.io_no_null_values (assert_no_nulls := nnObj) (p0 := .obj (exDoc ++ [("doi", .list [.null])])) = false := by
   decide +kernel
 example : Generated.io_no_null_values (assert_no_nulls := nnObj)
-    (data := .obj (exDoc ++ [("defaults", .obj [("epoch", .obj [("end_time", .null)])])])) = false := by decide +kernel
+    (p0 := .obj (exDoc ++ [("defaults", .obj [("epoch", .obj [("end_time", .null)])])])) = false := by decide +kernel
 -- nested lists are searched
 example : nnList "k" (.list [.list [.list [.null]]]) = false ∧ nnList "k" (.list [.list [.list [.str "x"]]]) = true := by
   decide +kernel
